@@ -1,0 +1,34 @@
+//! Verification hooks (only compiled with `--cfg metrics_verif`).
+//!
+//! A harness can install a process-global callback that is invoked at every `yield_point` placed
+//! immediately before a shared-memory access of interest. Without a callback the points are no-ops.
+use std::sync::atomic::{AtomicUsize, Ordering};
+
+static CALLBACK: AtomicUsize = AtomicUsize::new(0);
+
+/// Installs (or clears) the callback invoked at every yield/spin point.
+pub fn set_callback(cb: Option<fn(u32, bool)>) {
+    CALLBACK.store(cb.map_or(0, |f| f as usize), Ordering::SeqCst);
+}
+
+#[inline]
+fn call(site: u32, spin: bool) {
+    let raw = CALLBACK.load(Ordering::SeqCst);
+    if raw != 0 {
+        // SAFETY: only ever stored from a `fn(u32, bool)` in `set_callback`.
+        let f: fn(u32, bool) = unsafe { std::mem::transmute::<usize, fn(u32, bool)>(raw) };
+        f(site, spin);
+    }
+}
+
+/// Marks the point immediately before the shared-memory access identified by `site`.
+#[inline]
+pub fn yield_point(site: u32) {
+    call(site, false);
+}
+
+/// Marks one iteration of a wait loop identified by `site`.
+#[inline]
+pub fn spin_point(site: u32) {
+    call(site, true);
+}
